@@ -161,8 +161,26 @@ def routing(ck, prog):
             while v[0] == "call" and v[1] in ("unwrap", "std::option::Option::<T>::unwrap", "std::option::Option::<T>::expect") and v[2]:
                 v = v[2][0]
             return v[2] if v[0] == "field" else None
-        tc = [bb for bb, t in bp.calls() if t.get("f") and t["f"]["path"].endswith("::push_back") and child_of(t["args"][1]) == "true_child"]
-        fc = [bb for bb, t in bp.calls() if t.get("f") and t["f"]["path"].endswith("::push_back") and child_of(t["args"][1]) == "false_child"]
+        def reads_field(name):
+            """blocks that read <node>.<name> (the child chosen for the next step)"""
+            out = set()
+            for i, j, s in bp.stmts():
+                if s["k"] != "assign":
+                    continue
+                r = s["r"]
+                pl = r.get("p") if r["k"] in ("ref", "copyderef", "discr") else (r["o"].get("p") if r["k"] == "use" and r["o"]["k"] in ("copy", "move") else None)
+                if pl and pl["pr"]:
+                    last = [e for e in pl["pr"] if isinstance(e, dict) and "f" in e]
+                    if last and last[-1]["n"] == name:
+                        out.add(i)
+            for bb, t in bp.calls():
+                for a in t["args"]:
+                    if a["k"] in ("copy", "move") and a["p"]["pr"]:
+                        last = [e for e in a["p"]["pr"] if isinstance(e, dict) and "f" in e]
+                        if last and last[-1]["n"] == name:
+                            out.add(bb)
+            return sorted(out)
+        tc, fc = reads_field("true_child"), reads_field("false_child")
         lhs_subj = True
         c = c2
         rel = r2
